@@ -122,7 +122,10 @@ func (c *Ctx) Index() int64 { return c.idx - 1 }
 // Tick signals liveness for long single cases.
 func (c *Ctx) Tick() { atomic.AddInt64(&c.progress, 1) }
 
-func (c *Ctx) Add(name string, d int64) { c.Counters[name] += d }
+func (c *Ctx) Add(name string, d int64) {
+	c.Counters[name] += d
+	atomic.AddInt64(&c.progress, 1) // every counted evaluation is also a sign of life for the stall watchdog
+}
 func (c *Ctx) Max(name string, v int64) {
 	if v > c.Counters[name] {
 		c.Counters[name] = v
